@@ -631,26 +631,37 @@ Linear_Expression_Impl<Row>
           i = row.reset(i);
           continue;
         }
+        // NOTE: `y.row' may store zeroes (it may be a dense row):
+        // these must not be stored into `row' (it may be a sparse row).
         if (i.index() > j.index()) {
-          i = row.insert(i, j.index(), *j);
-          (*i) *= c2;
-          ++i;
+          if (*j != 0) {
+            i = row.insert(i, j.index(), *j);
+            (*i) *= c2;
+            ++i;
+          }
           ++j;
           continue;
         }
         PPL_ASSERT(i.index() == j.index());
-        (*i) = (*j);
-        (*i) *= c2;
-        ++i;
+        if (*j == 0) {
+          i = row.reset(i);
+        }
+        else {
+          (*i) = (*j);
+          (*i) *= c2;
+          ++i;
+        }
         ++j;
       }
       while (i != i_end && i.index() < end) {
         i = row.reset(i);
       }
       while (j != j_last) {
-        i = row.insert(i, j.index(), *j);
-        (*i) *= c2;
-        // No need to increment i here.
+        if (*j != 0) {
+          i = row.insert(i, j.index(), *j);
+          (*i) *= c2;
+          // No need to increment i here.
+        }
         ++j;
       }
     }
